@@ -174,6 +174,15 @@ class Effects:
                     f[1] != "numpy.array" or dict(t[3]).get("copy") == ("const", False)):
                 return self.root_param(t[2][0], depth + 1)  # asarray / array(copy=False) hand back the argument itself
             return None
+        if tag == "listcomp":
+            # a list of views: its elements alias whatever the element expression aliases
+            return self.root_param(t[1], depth + 1)
+        if tag == "alloc" and t[1] in ("list", "builtin.list", "tuple", "builtin.tuple") and t[2]:
+            for x in t[2]:
+                r = self.root_param(x, depth + 1)
+                if r is not None:
+                    return r
+            return None
         if tag == "star":
             return self.root_param(t[1], depth + 1)
         if tag == "tuple":
